@@ -27,3 +27,10 @@ Proof. reflexivity. Qed.
 Lemma run_ref_is_ref_run fuel H anas cov p :
   run_ref fuel H anas cov p = observe (fnames_of p) (ref_run (cdata (fnames_of p)) (map mk_pana anas) "M" H fuel p (st0 (fnames_of p) cov)).
 Proof. reflexivity. Qed.
+
+(* the concrete data semantics builds lists without visible effect and tests booleans purely (its truth tests of
+   recorder objects are NOT pure: they are logged) *)
+Lemma cdata_list_pure fn : list_building_pure (cdata fn).
+Proof. exists VList. split; intros; reflexivity. Qed.
+Lemma cdata_bool_truth fn : bool_truth (cdata fn).
+Proof. intros b w0. reflexivity. Qed.
